@@ -115,6 +115,49 @@ def _escapes(idx, cls, attr):
     return sites
 
 
+def _module_table_sites(idx, rel, name):
+    """uses of the module-level container `name` of file rel that mutate it, rebind it or let it leave as an object (the module-level
+    analogue of _mutated/_escapes); an import of the name by another file counts as leaving"""
+    sites = []
+    for rel2, (_src, tree2) in idx.files.items():
+        if rel2 == rel:
+            continue
+        for st in ast.walk(tree2):
+            if isinstance(st, ast.ImportFrom) and any(a.name == name for a in st.names) and (st.module or "").split(".")[-1] == rel.rsplit("/", 1)[-1][:-3]:
+                sites.append((rel2, st))
+    tree = idx.files[rel][1]
+    parents = {}
+    for p_ in ast.walk(tree):
+        for ch in ast.iter_child_nodes(p_):
+            parents[id(ch)] = p_
+    ndefs = 0
+    for n in ast.walk(tree):
+        if not (isinstance(n, ast.Name) and n.id == name):
+            continue
+        par = parents.get(id(n))
+        if isinstance(n.ctx, ast.Store):
+            ndefs += 1
+            if ndefs > 1 or not (isinstance(par, ast.Assign) and par in tree.body):
+                sites.append((rel, n))
+            continue
+        if isinstance(n.ctx, ast.Del):
+            sites.append((rel, n))
+            continue
+        gpar = parents.get(id(par)) if par is not None else None
+        harmless = (
+            (isinstance(par, ast.Subscript) and par.value is n and isinstance(par.ctx, ast.Load)) or
+            (isinstance(par, ast.Attribute) and par.value is n and par.attr in ("get", "keys", "values", "items", "index", "count", "copy", "format")
+             and isinstance(gpar, ast.Call) and gpar.func is par) or
+            (isinstance(par, ast.Compare)) or
+            (isinstance(par, (ast.For, ast.comprehension)) and par.iter is n) or
+            (isinstance(par, ast.Call) and call_name(par) in ("len", "sorted", "list", "tuple", "set", "dict", "enumerate", "any", "all", "sum", "max", "min", "join", "frozenset") and n in par.args) or
+            (isinstance(par, ast.Starred)) or (isinstance(par, ast.BinOp)) or (isinstance(par, ast.FormattedValue))
+        )
+        if not harmless:
+            sites.append((rel, n))
+    return sites
+
+
 def r1(idx, rep):
     n = 0
     for cname, cis in sorted(idx.classes.items()):
@@ -146,6 +189,10 @@ def r1(idx, rep):
                 if names == ["__all__"]:
                     continue
                 n += 1
+                # a literal table that nothing in the package mutates, rebinds, or gets hold of as an object is a constant
+                if len(names) == 1 and isinstance(st.value, (ast.Dict, ast.List, ast.Set)) and not _module_table_sites(idx, rel, names[0]):
+                    rep.ok("R1", f"{rel}::module-level container {names[0]} is constant", "read through subscripts, membership tests and iteration only", rel)
+                    continue
                 rep.fail("R1", f"{rel}::module-level container {names}", f"`{unparse(st)[:80]}` is process-wide mutable state", rel)
             if isinstance(st, ast.Global):
                 rep.fail("R1", f"{rel}::global statement", unparse(st), rel)
